@@ -119,7 +119,7 @@ func genC14(seed int64, tier string) *Scenario {
 				o.Tag = fmt.Sprintf("download:%d", size)
 				o.Path = "/down"
 				o.Sim = fmt.Sprintf("size=%d", size)
-				if rng.Intn(8) == 0 {
+				if rng.Intn(8) == 0 && size > 0 { // (an empty body cannot be cut: the response would be complete and the target would merely close an idle keep-alive connection under the next request)
 					o.Sim += ";fault=close_mid_body"
 					o.Tag = fmt.Sprintf("download-cut:%d", size)
 				}
@@ -221,7 +221,7 @@ func checkC14(r *RunResult) []Violation {
 				break
 			}
 			if q.Status != 200 {
-				add("upload-failed", fmt.Sprintf("n=%d,L=%d,M=%d,br=%v", size, L, M, br), fmt.Sprintf("request %s: upload of %d bytes (limit %d, memory %d, buffering %v) got status %d err=%q", q.ReqID, size, L, M, br, q.Status, q.Err))
+				add("upload-failed", fmt.Sprintf("n=%d,L=%d,M=%d,br=%v,status=%d", size, L, M, br, q.Status), fmt.Sprintf("request %s: upload of %d bytes (limit %d, memory %d, buffering %v) got status %d err=%q", q.ReqID, size, L, M, br, q.Status, q.Err))
 				break
 			}
 			seen := ""
